@@ -77,7 +77,9 @@ theorem startTask_inv (env : Env) (fail : List String) (w : World) (id : String)
     ExecInv (startTask env fail w id t).1 := by
   unfold ExecInv; rw [startTask_view]; split
   · exact View.EI.start h ht he
-  · exact h
+  · split
+    · exact View.EI.stop h id
+    · exact h
 
 theorem reloadTask_view (env : Env) (fail : List String) (w : World) (k : String) (t : Task)
     (hk : (w.store.tasks k).isSome = true) :
@@ -87,7 +89,7 @@ theorem reloadTask_view (env : Env) (fail : List String) (w : World) (k : String
       else w.view.put k t := by
   unfold reloadTask
   split
-  · rw [startTask_view, stopTask_view, tasksReplace_view, hk]; simp
+  · rw [startTask_view_idle _ _ _ _ _ (by simp [stopTask, World.setExec]), stopTask_view, tasksReplace_view, hk]; simp
   · simp [tasksReplace_view, hk]
 
 theorem reloadTask_ok (env : Env) (fail : List String) (w : World) (k : String) (t : Task) :
@@ -119,7 +121,7 @@ theorem reloadTask_inv (env : Env) (fail : List String) (w : World) (k : String)
 /-! ### create -/
 
 theorem createCommit_view (v : Variant) (env : Env) (fail : List String) (w : World) (id : String) (t : Task)
-    (templated : Bool) (hn : w.store.tasks id = none) :
+    (templated : Bool) (hn : w.store.tasks id = none) (hidle : w.exec id = false) :
     (createCommit v env fail w id t templated).1.view =
       (if (t.enabled && startOK env fail id t) = true then
         (if (templated && !v.assocEarly) = true then (w.view.put id t).setAssoc t.tmpl id true else w.view.put id t).setExec id true
@@ -128,8 +130,12 @@ theorem createCommit_view (v : Variant) (env : Env) (fail : List String) (w : Wo
   dsimp only
   simp only [tasksCreate_ok, tasksCreate_view, hn, Option.isSome_none, Bool.not_false, Bool.not_true,
     Bool.false_eq_true, if_false, startTask_ok, startTask_view, apply_ite World.view, note_view, associate_view]
+  have e1 : (w.view.put id t).setExec id false = w.view.put id t :=
+    View.setExec_self _ _ _ (by simpa [View.put] using hidle)
+  have e2 : ((w.view.put id t).setAssoc t.tmpl id true).setExec id false = (w.view.put id t).setAssoc t.tmpl id true :=
+    View.setExec_self _ _ _ (by simpa [View.put, View.setAssoc] using hidle)
   cases he : t.enabled <;> cases hs : startOK env fail id t <;> cases templated <;> cases v.assocEarly <;>
-    simp [tasksCreate_view, hn, startTask_view, startTask_ok, he, hs]
+    simp [tasksCreate_view, hn, startTask_view, startTask_ok, he, hs, e1, e2]
 
 theorem createCommit_resp_eq (v : Variant) (env : Env) (fail : List String) (w : World) (id : String) (t : Task)
     (templated : Bool) (hn : w.store.tasks id = none) :
@@ -143,7 +149,7 @@ theorem createCommit_inv (v : Variant) (env : Env) (fail : List String) (w : Wor
     (templated : Bool) (hn : w.store.tasks id = none) (h : ExecInv w) :
     ExecInv (createCommit v env fail w id t templated).1 := by
   unfold ExecInv at *
-  rw [createCommit_view v env fail w id t templated hn]
+  rw [createCommit_view v env fail w id t templated hn (View.EI.not_exec h hn)]
   have h1 : (w.view.put id t).EI := View.EI.put_fresh h hn t
   have h2 : (if (templated && !v.assocEarly) = true then (w.view.put id t).setAssoc t.tmpl id true else w.view.put id t).EI := by
     split
